@@ -650,8 +650,17 @@ def gen_history_x(rng, length):
                     lst.remove(k)
         if o in ("reopen", "sweep") or not rng.chance(45):
             continue
-        w = rng.weighted([("pg_add", 45), ("pg_remove", 10), ("copy", 45)])
+        w = rng.weighted([("pg_add", 40), ("pg_remove", 10), ("copy", 38), ("move_data", 12)])
         cands = [k for k in objs if live_data.get(k)]
+        if w == "move_data":
+            if cands and len(objs) >= 2:
+                ob = rng.choice(sorted(cands))
+                dk = rng.choice(live_data[ob])
+                q = rng.choice(sorted(k for k in objs if k != ob))
+                live_data[ob].remove(dk)
+                live_data.setdefault(q, []).append(dk)
+                ops.append({"op": "move", "e": list(dk), "q": list(q)})
+            continue
         if w == "pg_add" and cands:
             ob = rng.choice(sorted(cands))
             ms = rng.sample(live_data[ob], rng.range(1, min(3, len(live_data[ob]))))
